@@ -191,7 +191,7 @@ class _ModuleScope(object):
         self.lineno = 1
 
 
-def x_eval_module_expr(self, st, node, mod):
+def x_eval_module_expr(self, st, node, mod, ci=None):
     """A module-level constant computed by an expression (a comprehension over another table, a tuple(...) call ...):
     evaluated in the module's scope.  KeyError unless it evaluates to one value without forking."""
     if not isinstance(node, (ast.Call, ast.ListComp, ast.SetComp, ast.DictComp, ast.GeneratorExp, ast.BinOp, ast.Subscript)):
@@ -210,7 +210,18 @@ def x_eval_module_expr(self, st, node, mod):
     saved, saved_frames = self.cur_func, st.frames
     self.cur_func = _ModuleScope(mod)
     self._modexpr_depth = depth + 1
-    st.frames = [{}]
+    frame = {}
+    if ci is not None:
+        # an expression in a class body sees the names defined earlier in that body
+        for nm in ast.walk(node):
+            if isinstance(nm, ast.Name) and isinstance(nm.ctx, ast.Load) and nm.id in ci.class_consts and nm.id not in frame:
+                try:
+                    o_ = self.get_attr(st, ClassVal(ci), nm.id, node)
+                except AnalysisError:
+                    o_ = []
+                if len(o_) == 1 and o_[0][1] == "val" and o_[0][0] is st:
+                    frame[nm.id] = o_[0][2]
+    st.frames = [frame]
     try:
         outs = self.eval(st, node)
     except AnalysisError:
@@ -1047,7 +1058,7 @@ def get_attr(self, st, base, attr, node, default=KeyError):
                     rv = x_module_table(self, st, lc[1], lc[0].module)       # class-level dispatch table
                     if rv is not KeyError:
                         return [(st, "val", rv)]
-                    rv = x_eval_module_expr(self, st, lc[1], lc[0].module)
+                    rv = x_eval_module_expr(self, st, lc[1], lc[0].module, ci=lc[0])
                     if rv is not KeyError:
                         return [(st, "val", rv)]
                     return [(st, "val", Top("classconst:" + attr))]
@@ -1156,7 +1167,7 @@ def get_attr(self, st, base, attr, node, default=KeyError):
                     rv = x_module_table(self, st, lc[1], lc[0].module)       # class-level dispatch table
                     if rv is not KeyError:
                         return [(st, "val", rv)]
-                    rv = x_eval_module_expr(self, st, lc[1], lc[0].module)
+                    rv = x_eval_module_expr(self, st, lc[1], lc[0].module, ci=lc[0])
                     if rv is not KeyError:
                         return [(st, "val", rv)]
                     return [(st, "val", Top("classconst:" + attr))]
